@@ -221,7 +221,7 @@ template<typename... Args> struct Sys {
     }
 };
 
-template<typename... Args> void bfs(int maxobs, uint64_t &states, uint64_t &trans, uint64_t &nontrivial) {
+template<typename... Args> void bfs(int maxobs, uint64_t &states, uint64_t &trans, uint64_t &nontrivial, bool lookahead = false) {
     std::vector<Op> alpha;
     for (int i = 0; i < NSLOT; i++) for (int k : {SUB_L, SUB_SV, SUB_UP, SUB_RAW}) alpha.push_back(Op{k, i, 0});
     for (int i = 0; i < NSLOT; i++) for (int k : {UN_H, UN_S, MUTE, UNMUTE, INVAL, MVC}) alpha.push_back(Op{k, i, 0});
@@ -244,6 +244,12 @@ template<typename... Args> void bfs(int maxobs, uint64_t &states, uint64_t &tran
             trans++; shm->evaluations++;
             if (o.kind == NOTIFY && !g_calls.empty()) nontrivial++;
             if (seen.insert(k).second) { states++; auto h2 = h; h2.push_back(o); if (states % 211 == 7) sample(hs(h, &o) + "  => state " + k); frontier.push_back(std::move(h2)); }
+            else if (lookahead) {
+                // the transition led to a state that is already known: whatever this very operation left behind that the key does not show (a cached value, a counter) gets one more
+                // operation of every kind to surface - a history of its own, with every oracle on, that is not merged into the search
+                auto h2 = h; h2.push_back(o);
+                for (auto &o2 : alpha) { bool ok2; mark(hs(h2, &o2)); sys.step(h2, &o2, ok2); if (ok2) { trans++; shm->evaluations++; } }
+            }
         }
     }
 }
@@ -253,8 +259,8 @@ extern bool g_delivery_only;
 void explore_c05() {
     int maxobs = thorough() ? 3 : 2;     // live observers at a time (3 handle slots; removed observers make room for new ones)
     uint64_t &states = shm->states, &trans = shm->transitions, &nontrivial = shm->nontrivial;
-    bfs<>(3, states, trans, nontrivial);
-    bfs<int>(maxobs, states, trans, nontrivial);
+    bfs<>(3, states, trans, nontrivial, true);
+    bfs<int>(maxobs, states, trans, nontrivial, true);
     bfs<const std::string &>(maxobs, states, trans, nontrivial);
     bfs<std::string, int>(3, states, trans, nontrivial);      // by-value class arguments with three observers: what the last one receives must not depend on what happened to the others
     c05_reentrant_part();
